@@ -148,6 +148,7 @@ def judge(case, rec):
     qT["dims"] = list(reversed(q["dims"]))
     A = lib.cube(zz9enc.encode(sv, q), case["transforms"], case["population"],
                  case["mask_size"]).partitions[0]
+    lib.warm(A, case.get("warmup"))
     B = lib.cube(zz9enc.encode(sv, qT), mirror_transforms(case["transforms"]),
                  case["population"], case["mask_size"]).partitions[0]
     dims = apparent_dims(sv, q)
